@@ -422,3 +422,69 @@ def update_coherence_obligations():
                        'stale after update(): %r (assigned in __init__ from the updatable input, not in update())' % missing,
                        backend='parse of the generated update()', t=time.time() - t0))
     return obs, None
+
+
+# ---- update_params(): constants derived from the parameters are recomputed ----------------------------------------------------------
+_PARAM_FORMS = [
+    ('norm(b)^2', 2, lambda V, vf, u, v: (lambda b: vf.add(V.norm(b) * V.norm(b) * u * v * V.dx))(vf.parameter('b', shape=(2,)))),
+    ('shared sin(c)+cos(c)', 2, lambda V, vf, u, v: (lambda c: vf.add((V.sin(c) + V.cos(c)) * u * v * V.dx + (V.sin(c) + V.cos(c)) * V.inner(V.grad(u), V.grad(v)) * V.dx))(vf.parameter('c'))),
+    ('two parameters', 3, lambda V, vf, u, v: (lambda c, d: vf.add(V.exp(c * d) * u * v * V.dx + V.exp(c * d) * V.inner(V.grad(u), V.grad(v)) * V.dx))(vf.parameter('c'), vf.parameter('d'))),
+    ('plain parameter', 2, lambda V, vf, u, v: (lambda c: vf.add(c * u * v * V.dx))(vf.parameter('c'))),
+]
+
+
+def update_params_obligations():
+    """every constant that precompute_fields derives from the parameters (constants[k] = <expression>) is recomputed by update_params():
+    the statements `constants[k] = ...` of precompute_fields reappear, with the same right-hand sides, in update_params (generated text
+    of the real generator, parsed)."""
+    import re
+    V, backend = real_modules()
+    obs = []
+    asg = re.compile(r'^\s*constants\[(\d+)\]\s*=\s*(.*)$')
+
+    def body(lines, header):
+        try:
+            i0 = next(k for k, l in enumerate(lines) if re.match(header, l))
+        except StopIteration:
+            return None
+        ind = lambda l: len(l) - len(l.lstrip())
+        # the signature may span several lines: the body starts after the line ending with ':'
+        k = i0
+        while not lines[k].rstrip().endswith(':'):
+            k += 1
+        end = next((j for j in range(k + 1, len(lines)) if lines[j].strip() and ind(lines[j]) <= ind(lines[i0])), len(lines))
+        return lines[k + 1:end]
+    for label, dim, build in _PARAM_FORMS:
+        oid = 'codegen:update_params[%s]:recomputes-derived-constants' % label
+        t0 = time.time()
+        desc = 'update_params() recomputes every constant that precompute_fields derives from the parameters'
+        try:
+            vf = V.VForm(dim)
+            u, v = vf.basisfuns()
+            build(V, vf, u, v)
+            code = backend.CodeGen()
+            backend.AsmGenerator(vf, 'ParAsm', code).generate()
+            lines = code.result().split('\n')
+        except Exception as e:
+            obs.append(_ob(oid, 'unknown', desc, 'could not generate: %s: %s' % (type(e).__name__, e), backend='parse of the generated update_params()', t=time.time() - t0))
+            continue
+        pre = body(lines, r'\s*cdef void precompute_fields\(')
+        upd = body(lines, r'\s*def update_params\(')
+        if upd is None:
+            obs.append(_ob(oid, 'refuted', desc, 'no update_params() generated for a form with parameters', backend='parse of the generated update_params()', t=time.time() - t0))
+            continue
+        want = set()
+        for l in (pre or []):
+            m = asg.match(l)
+            if m:
+                want.add((m.group(1), m.group(2).strip()))
+        got = set()
+        for l in upd:
+            m = asg.match(l)
+            if m:
+                got.add((m.group(1), m.group(2).strip()))
+        missing = sorted(want - got)
+        obs.append(_ob(oid, 'refuted' if missing else 'proved', desc,
+                       'derived constants computed in precompute_fields but not in update_params (stale after an update): %r' % missing,
+                       backend='parse of the generated update_params()', t=time.time() - t0))
+    return obs, None
